@@ -175,10 +175,19 @@ class GraphvizMonitor(Monitor):
             elif st[0] == 'edge':
                 (loops if st[1] == st[2] else edges).append(st)
         n = sl.n
-        want_nodes = [f'c{k}' for k in range(n)]
-        if sorted(nodes) != sorted(want_nodes):
-            COL.violation('graphviz', 'graphviz:nodes-differ', want_nodes[:12], nodes[:12])
+        # "named by its index": any fixed prefix followed by the decimal index
+        def index_of(name):
+            m = re.fullmatch(r'(\D*)(\d+)', name)
+            return (m.group(1), int(m.group(2))) if m else (None, None)
+        parsed = [index_of(x) for x in nodes]
+        prefixes = {p for p, _ in parsed}
+        if len(prefixes) != 1 or None in prefixes or sorted(k for _, k in parsed) != list(range(n)):
+            COL.violation('graphviz', 'graphviz:nodes-differ', [f'<prefix>{k}' for k in range(min(n, 12))], nodes[:12])
             return
+        prefix = prefixes.pop()
+        rename = {f'{prefix}{k}': f'c{k}' for k in range(n)}
+        edges = [(e[0], rename.get(e[1], e[1]), rename.get(e[2], e[2]), e[3]) for e in edges]
+        loops = [(e[0], rename.get(e[1], e[1]), rename.get(e[2], e[2]), e[3]) for e in loops]
         want_edges = sorted((f'c{k}', f'c{l}') for k in range(n) for l in sl.lower(k))
         got_edges = sorted((e[1], e[2]) for e in edges)
         COL.count('edges_checked', len(want_edges))
